@@ -23,10 +23,14 @@ Definition in_i32 (z : Z) : Prop := -2147483648 <= z < 2147483648.
 Lemma wrap32_id z : in_i32 z -> wrap32 z = z.
 Proof. unfold in_i32, wrap32. intros H. rewrite Z.mod_small; lia. Qed.
 
-(* NthChild::has_index (wrapping i32 arithmetic) decides An+B whenever index - b does not leave i32 *)
-Lemma has_index_correct a b i : in_i32 (i - b) -> has_index a b i = an_plus_b a b i.
+(* NthChild::has_index decides An+B: the difference index - b is exact (i64) in the source today; were it computed with
+   wrapping i32 arithmetic (HAS_INDEX_WIDE = false) the statement would need in_i32 (i - b) *)
+Lemma has_index_correct_gen a b i : HAS_INDEX_WIDE = true \/ in_i32 (i - b) -> has_index a b i = an_plus_b a b i.
 Proof.
-  intros Hr. unfold has_index, an_plus_b. rewrite (wrap32_id _ Hr).
+  intros Hr. unfold has_index, an_plus_b.
+  assert (Hd : (if HAS_INDEX_WIDE then i - b else wrap32 (i - b)) = i - b).
+  { destruct HAS_INDEX_WIDE; [reflexivity|]. destruct Hr as [Hr|Hr]; [discriminate | exact (wrap32_id _ Hr)]. }
+  rewrite Hd. clear Hd Hr.
   destruct (Z.eqb_spec a 0) as [->|Ha].
   - destruct (Z.eqb_spec (i - b) 0), (Z.eqb_spec i b); try reflexivity; lia.
   - set (d := i - b).
@@ -52,8 +56,13 @@ Proof.
       * apply Hm. apply Z.mod_divide; [exact Ha|]. apply Z.rem_divide; assumption.
       * apply Hr0. apply Z.rem_divide; [exact Ha|]. apply Z.mod_divide; assumption.
 Qed.
-(* at the very edge of i32 the wrapping subtraction does change the answer: `:nth-child(n - 2147483648)` *)
-Example has_index_wraps_at_i32_edge : has_index 1 (-2147483648) 1 = false /\ an_plus_b 1 (-2147483648) 1 = true.
+Lemma has_index_correct a b i : in_i32 (i - b) -> has_index a b i = an_plus_b a b i.
+Proof. intros H. apply has_index_correct_gen. right. exact H. Qed.
+(* with the exact difference (fix 9d5b935) no side condition is left *)
+Theorem has_index_exact a b i : has_index a b i = an_plus_b a b i.
+Proof. apply has_index_correct_gen. left. reflexivity. Qed.
+(* the very edge of i32: `:nth-child(n - 2147483648)` matches the first child (it did not while the subtraction wrapped) *)
+Example has_index_at_i32_edge : has_index 1 (-2147483648) 1 = true /\ an_plus_b 1 (-2147483648) 1 = true.
 Proof. split; vm_compute; reflexivity. Qed.
 
 (* ---------- LocalNameHash is faithful: comparing LocalNames is ASCII-case-insensitive name equality ---------- *)
